@@ -3,7 +3,7 @@
 import sys, subprocess, os, tempfile, shutil
 stream=sys.argv[1]; tier=sys.argv[2] if len(sys.argv)>2 else "quick"; seed=sys.argv[3] if len(sys.argv)>3 else "1"; nshow=int(sys.argv[4]) if len(sys.argv)>4 else 5
 d="/tmp/vh"; os.makedirs(d,exist_ok=True)
-subprocess.check_call(["/verif/buildharness.sh"])
+subprocess.check_call(["/verif/buildharness.sh"]); subprocess.check_call(["/verif/buildbinary.sh"])
 subprocess.check_call(["/verif/.build/verifharness",stream,tier,seed,d])
 with open(f"{d}/{stream}.cases","rb") as f:
     m=subprocess.run(["/verif/lean/.lake/build/bin/vmodel"],stdin=f,stdout=subprocess.PIPE).stdout.decode().split("\n")[:-1]
